@@ -30,7 +30,14 @@ func pureInstr(in ssa.Instruction) bool {
 		}
 		return widthOf(x.X.Type()) >= 0
 	case *ssa.UnOp:
-		return x.Op != token.MUL && x.Op != token.ARROW && widthOf(x.X.Type()) >= 0
+		if x.Op == token.MUL {
+			return widthOf(x.Type()) >= 0 // load of an integer/bool (guarded)
+		}
+		return x.Op != token.ARROW && widthOf(x.X.Type()) >= 0
+	case *ssa.IndexAddr, *ssa.FieldAddr:
+		return true
+	case *ssa.Store:
+		return widthOf(x.Val.Type()) >= 0 // conditional store under the region's guard
 	case *ssa.Convert:
 		return widthOf(x.X.Type()) > 0 && widthOf(x.Type()) > 0
 	case *ssa.ChangeType:
@@ -101,10 +108,15 @@ func predIndex(b, pred *ssa.BasicBlock) int {
 
 // runIfConverted executes both sides of the region and merges the join's phis with ite.
 func (e *Exec) runIfConverted(fr *frame, b *ssa.BasicBlock, r *ifRegion, c *sym.Term) *ssa.BasicBlock {
-	for _, s := range []*ssa.BasicBlock{r.thenB, r.elseB} {
+	for k, s := range []*ssa.BasicBlock{r.thenB, r.elseB} {
 		if s == nil {
 			continue
 		}
+		g := c
+		if k == 1 {
+			g = e.tb.Not(c)
+		}
+		e.guard = append(e.guard, g)
 		for _, in := range s.Instrs {
 			if _, ok := in.(*ssa.Jump); ok {
 				break
@@ -113,6 +125,7 @@ func (e *Exec) runIfConverted(fr *frame, b *ssa.BasicBlock, r *ifRegion, c *sym.
 			e.curInstr = in
 			e.step(fr, in)
 		}
+		e.guard = e.guard[:len(e.guard)-1]
 	}
 	tPred, fPred := r.thenB, r.elseB
 	if tPred == nil {
